@@ -28,6 +28,8 @@ for hp in sorted(glob.glob(os.path.join(root, 'harness', 'C*', 'harness.json')))
         engines_used.setdefault(e.strip(), []).append(pid)
     if any(u.get('rewrite') or u.get('rewrite_thorough') for u in h['units']):
         engines_used.setdefault('rewrite', []).append(pid)
+    if any(u.get('race') for u in h['units']):
+        engines_used.setdefault('race-pass', []).append(pid)
     if any('GOMODCACHE' in k for u in h['units'] for k in (u.get('extra') or {})):
         engines_used.setdefault('module-overlay', []).append(pid)
 na = []
@@ -40,6 +42,7 @@ engines = [
     {'name': 'E3', 'path': 'harness/C01', 'kind_free_text': 'crash enumeration over a logged in-memory storage client (every storage-call boundary, crash chains)'},
     {'name': 'E4', 'path': 'harness/C07, harness/C08', 'kind_free_text': 'reflective payload universe over the generated data-model / protobuf structs (every field, every one-of alternative, boundary values; 1-2 deviations from the zero payload) and operation programs against plain-Go reference models'},
     {'name': 'module-overlay', 'path': 'harness/shared/*.go.txt', 'kind_free_text': 'build-time overlays of single files of third-party modules that own nondeterminism the scheduler cannot see: gonum graph/topo/tarjan.go (tie-breaking of topological sorts = Go map iteration order in the real code; canonical order for deterministic replay, exhaustive enumeration of traversals in C10/service) and cenkalti/backoff exponential.go (the random draw of the randomised retry interval; extremes enumerated in C05)'},
+    {'name': 'race-pass', 'path': 'engine/vs/race.go', 'kind_free_text': 'supporting pass (not the deciding step): the same harness bodies under the same scheduler in a -race binary; the scheduler hand-off is hidden from the detector (//go:norace shim package, plain-variable hand-off under GOMAXPROCS=1), every shim primitive adds an over-approximated happens-before edge for the operation it stands for, so a reported race between two sites of the code under test is a race of the real program under that schedule; deterministic prefix of the same DFS order (race_execs executions per exploration call); validates the atomicity assumption of E1 (scheduling points at synchronisation operations only); reported as coverage.race_pass in the evidence'},
     {'name': 'rewrite', 'path': 'engine/rewrite', 'kind_free_text': 'syntactic instrumenter (go/ast) applied at check time through go build -overlay; /repo is never edited'},
 ]
 for e in engines:
